@@ -17,7 +17,8 @@ func c13Served(c *core.Check, events *[][]byte, caseInfo map[string]any) int {
 	var groups []pGroup
 	caseN := 0
 	newCase := func() string { caseN++; return fmt.Sprintf("s%d", caseN) }
-	names := []string{"openapi.yaml", "spec.json", "api.v1.yml"}
+	// (names with one, several and no extension, a leading dot, a trailing dot)
+	names := []string{"openapi.yaml", "spec.json", "api.v1.yml", "spec", ".hidden", "openapi.", "v1"}
 	// (the served bytes are the file, not a rendering of it: format verbs and template actions in the text stay text)
 	descs := []string{"", "one \\ back\\slash \"q\" `tick` 100% %d %s %% %v %", "multi\nline\r\nwith\ttab and unicode é ☃ {{ .Name }} %[1]d ${HOME}"}
 	bases := baseForms()
